@@ -79,6 +79,8 @@ Definition dense_pairs (attrs : list dattr) : list (dattr * bytes) :=
   fold_left ins_hash (combine attrs (heap_ids 0 (map dattr_bytes attrs))) [].
 (* the attributes in the order of the leaf records = the order in which the reader lists them: ascending name hash *)
 Definition dense_order (attrs : list dattr) : list dattr := map fst (dense_pairs attrs).
+(* an attribute as Dataset.Attributes lists it (Model/IOProgReader.v attr): name and value bytes *)
+Definition listed (a : dattr) : bytes * bytes := (dattr_name a, dattr_data a).
 
 Section ImageDense.
 Variable name : bytes.            (* the link name, without the leading "/" *)
